@@ -35,10 +35,13 @@ ASSUMPTIONS = ['float64 records with non-zero peak (integer records are stored a
                'equality: rtol 1e-10 + atol 1e-12*scale (both sides run the same code)']
 EXHAUSTIVE = {'quick': 'every (class, W, m) with W over all reachable observational cache states; every (class, W, m1, m2) for W in {empty, all-warm}',
               'thorough': 'every (class, W, m) and every (class, W, m1, m2) for all reachable W'}
+CLONE = 'inv.clone(copy/deepcopy/pickle: both objects==fresh twin of own values, live reads)'
 MIN_EVALS = {'quick': {'inv.after-op(all observables==fresh twin)': 8000, 'read.idempotent': 3000, 'read.non-interfering': 3000,
-                       'inv.derived-object(all observables==fresh twin)': 1500},
+                       'inv.derived-object(all observables==fresh twin)': 1500, CLONE: 500,
+                       'set.value-kept(periods / smoothing frequencies as given)': 1500},
              'thorough': {'inv.after-op(all observables==fresh twin)': 250000, 'read.idempotent': 80000, 'read.non-interfering': 80000,
-                          'inv.derived-object(all observables==fresh twin)': 12000}}
+                          'inv.derived-object(all observables==fresh twin)': 12000, CLONE: 800,
+                          'set.value-kept(periods / smoothing frequencies as given)': 40000}}
 
 OBS_SIG = ['npts', 'time', 'values', 'fa_spectrum', 'fa_freqs', 'fa_frequencies', 'smooth_fa_spectrum', 'smooth_fa_freqs',
            'fa_spectrum_abs']
@@ -139,6 +142,14 @@ def op_list(cls_name, rng, n, dt=None, amp=1.0):
         ('set:smooth_freq_points', {'value': 9}),
         ('gen_smooth_fa_spectrum', {'smooth_fa_freqs': f1 * 1.1}),
         ('generate_smooth_fa_spectrum', {}),
+        # assignment through the public attribute name (the clean library ignores it; whatever it does, it must do all of it)
+        ('set:values', {'values': amp * rng.normal(size=n)}),
+        ('set:values', {'values': amp * rng.normal(size=n + 5)}),
+        # operations the library refuses, or accepts although the record is not finite: the invariant is judged after them as well
+        ('reset_values', {'values': nonfinite(amp * rng.normal(size=n + 4), rng)}),
+        ('add_series:wrong-length', {'series': amp * rng.normal(size=n + 3)}),
+        ('add_signal:other-dt', {'values': amp * rng.normal(size=n)}),
+        ('butter_pass', {'cut_off': 5.0 / q}),
     ]
     # analysis functions that take the object: read-like operations (they must not change any observable)
     for fn in CALLS_SIG if cls_name == 'Signal' else CALLS_SIG + CALLS_ACC:
@@ -171,8 +182,18 @@ def op_list(cls_name, rng, n, dt=None, amp=1.0):
             ('generate_fa_spectrum', {}),
             ('set:response_times(same object, edited, re-assigned)', {'factor': 1.25}),
             ('set:response_times(own array assigned, edited, re-assigned)', {'rt': np.array([0.12, 0.5, 1.4]) * q}),
+            # container forms of the period list: a 2-tuple is a list of two periods, not a (min, max) range
+            ('set:response_times', {'rt': (0.2 * q, 1.1 * q)}),
+            ('set:response_times', {'rt': [0.3 * q]}),
+            ('gen_response_spectrum', {'response_times': (0.15 * q, 0.9 * q)}),
         ]
     return ops
+
+
+def nonfinite(v, rng):
+    v = np.array(v, dtype=float)
+    v[int(rng.integers(len(v)))] = [np.nan, np.inf, -np.inf][int(rng.integers(3))]
+    return v
 
 
 MUTATING = lambda name: not (name.startswith('read:'))
@@ -278,6 +299,14 @@ def apply_op(eqsig, obj, op):
         if name == 'set:response_times':
             obj.response_times = kw['rt']
             return
+        if name == 'set:values':
+            obj.values = kw['values']
+            return
+        if name == 'add_series:wrong-length':
+            return obj.add_series(kw['series'])
+        if name == 'add_signal:other-dt':
+            v = kw['values'][:obj.npts] if len(kw['values']) >= obj.npts else np.resize(kw['values'], obj.npts)
+            return obj.add_signal(type(obj)(v, obj.dt * 2.0))
         if name.startswith('call:'):
             return call_analysis(eqsig, obj, name[5:])
         if name == 'set:response_times(same object, edited, re-assigned)':
@@ -377,6 +406,70 @@ class Hook(object):
                        'reading %s changed other observables %s' % (name, bad))
 
 
+CLONE_KINDS = ('deepcopy', 'pickle', 'copy')
+CLONE_AFTER = ('none', 'reset-clone', 'reset-original', 'mutate-clone', 'mutate-original')
+
+
+def clone_scenario(hook, eqsig, cls_name, base, W, kind, after, first, rng, dt=None):
+    """Python's own object protocols are public operations too: reads(W) on the original, then a clone by copy.copy /
+    copy.deepcopy / pickle round trip, optionally a value change on one of the two, then LIVE reads of every observable of one
+    object and then of the other (the order matters when a memo is shared). Each object must report what a fresh object with
+    ITS OWN current values, dt and settings reports. A shallow copy shares the value buffer by definition, so after copy.copy
+    only the rebinding reset_values is driven, and the two buffers are checked to be separate before anything is judged."""
+    import pickle
+    ctx = hook.ctx
+    hook.dt = DT if dt is None else dt
+    obj = make_obj(eqsig, cls_name, base, hook.dt)
+    hist = [('read:' + GROUP_READ[g], {}) for g in W]
+    with warnings.catch_warnings():
+        warnings.simplefilter('ignore')
+        for op in hist:
+            getattr(obj, op[0][5:])
+        hist = hist + [('clone:%s/%s/first=%s' % (kind, after, first), {})]
+        try:
+            if kind == 'deepcopy':
+                twin = copy.deepcopy(obj)
+            elif kind == 'pickle':
+                twin = pickle.loads(pickle.dumps(obj))
+            else:
+                twin = copy.copy(obj)
+        except Exception as e:
+            ctx.violation(CLONE, hook.witness(cls_name, base, hist), '%s of a %s raised %r' % (kind, cls_name, e))
+            return
+        n = len(base)
+        if after in ('reset-clone', 'reset-original'):
+            (twin if after == 'reset-clone' else obj).reset_values(np.asarray(base, dtype=float)[::-1] * 3.0 + 0.25)
+        elif after in ('mutate-clone', 'mutate-original'):
+            if kind == 'copy':
+                return            # an in-place mutator on a shallow copy legitimately moves both: not driven
+            ops = [o for o in op_list(cls_name, rng, n, hook.dt) if o[0] in ('add_constant', 'butter_pass', 'remove_poly', 'rebase_displacement',
+                                                                          'running_average', 'set:response_times', 'set:smooth_fa_freqs',
+                                                                          'set_zero_residual_velocity', 'add_series')]
+            op = ops[int(rng.integers(len(ops)))]
+            hist.append(op)
+            try:
+                apply_op(eqsig, twin if after == 'mutate-clone' else obj, op)
+            except Exception as e:
+                ctx.observe('operation-raised:%s:%s' % (op[0], type(e).__name__))
+        if kind == 'copy' and after != 'none' and np.shares_memory(np.asarray(obj.values), np.asarray(twin.values)):
+            ctx.observe('clone: shallow copies still share their value buffer (not judged)')
+            return
+        names = obs_names(obj)
+        pair = [('original', obj), ('clone', twin)]
+        if first == 'clone':
+            pair.reverse()
+        bad = []
+        for label, o in pair:
+            of = observe(fresh(eqsig, o), names)
+            order = list(rng.permutation(names)) if rng is not None else names
+            live = observe(o, order)           # live reads: they fill the caches of the object that is read first
+            bad += ['%s.%s' % (label, k) for k in names if not same(live[k], of[k])]
+        ctx.check(not bad, CLONE, lambda: dict(hook.witness(cls_name, base, hist), stale=bad, clone=[kind, after, first], W=list(W)),
+                  '%s, reads %s, %s, then %s, %s read first: %s differ from a fresh object with the same values/dt/settings'
+                  % (cls_name, list(W), kind, after, first, bad))
+        ctx.keyset('clone scenarios (class, kind, after, first)').add((cls_name, kind, after, first))
+
+
 def reachable_states(cls_name):
     if cls_name == 'Signal':
         return [(), ('fa',), ('fa', 'smooth')]
@@ -419,6 +512,17 @@ def run_history(hook, eqsig, cls_name, base, history, check_every=True, rng=None
             # afterwards - a failed operation must not leave stale derived quantities behind either.
             ctx.observe('operation-raised:%s:%s' % (name, type(e).__name__))
         done.append(op)
+        if name in ('set:response_times', 'set:smooth_fa_freqs', 'set:smooth_fa_frequencies'):
+            attr = 'response_times' if name == 'set:response_times' else 'smooth_fa_freqs'
+            given = np.asarray(op[1]['rt' if attr == 'response_times' else 'freqs'], dtype=float)
+            try:
+                have = np.asarray(getattr(obj, attr), dtype=float)
+                kept = have.shape == given.shape and bool(np.array_equal(have, given))
+            except Exception:
+                have, kept = None, False
+            ctx.check(kept, 'set.value-kept(periods / smoothing frequencies as given)',
+                      lambda: dict(hook.witness(cls_name, base, done), attribute=attr, given=given, stored=have),
+                      '%s: after %s the object reports %s = %s' % (cls_name, describe(op), attr, None if have is None else have[:5]))
         if check_every or op is history[-1]:
             if not hook.inv(obj, cls_name, base, done, rng):
                 okk = False
@@ -492,6 +596,23 @@ def run_shard(ctx):
                 hist = pre + [('read:' + GROUP_READ[g], {}) for g in W] + [('read:' + rname, {})]
                 run_history(hook, eqsig, cls_name, base, hist, check_every=False, reads_checked=True)
                 ctx.cases_enumerated(1, 1 if pre else 0, cls='exhaustive-read-in-state')
+    # ---- clones: every cache state x {copy, deepcopy, pickle} x {nothing, value change on either side} x read order --------
+    n_clone = 0
+    for cls_name in ('AccSignal', 'Signal'):
+        for W in reachable_states(cls_name):
+            for kind in CLONE_KINDS:
+                for after in CLONE_AFTER:
+                    for first in ('original', 'clone'):
+                        job += 1
+                        if job % ctx.nshards != ctx.shard:
+                            continue
+                        if quick and cls_name == 'AccSignal' and after.startswith('mutate') and job % 3:
+                            continue
+                        base, _ = gen.record(rng, n, cls=['noise', 'quake', 'walk', 'sine'][job % 4], amp=1.0)
+                        clone_scenario(hook, eqsig, cls_name, base + 0.01, W, kind, after, first, rng)
+                        n_clone += 1
+    ctx.cases_enumerated(n_clone, n_clone, cls='clone-scenarios')
+    ctx.exhaustive['(class,W,clone kind,after,first) scenarios'] = n_clone
     # ---- random histories -------------------------------------------------------------------------------------------
     nh = (320 if quick else 10000) // ctx.nshards + 1
     for h in range(nh):
